@@ -17,6 +17,10 @@ def junk_lines(rng):
         cand += [("*" + g[:k]).encode(), ("@" + ts + g[:k]).encode(), ("@" + ts[:k % 12 + 1]).encode(), (g[k:] + ";").encode(),
                  ("*" + g[:k] + "\r").encode(), ("<" + ts + "1A" + g[:k]).encode()]
     cand += [b"*", b"@", b";", b"*\r", b"**", b"@@", b"*;*", b";*"]
+    # lines whose length sits on and around the sizes buffers are made of (a line is a line, whatever its length)
+    for n in rng.sample([4095, 4096, 4097, 8191, 8192, 8193, 16383, 16384, 32767, 32768, 65533, 65534, 65535, 65536, 65537, 131071, 131072], 4) + [65535, 65536]:
+        cand.append(bytes(rng.choice(b"ghijklmnopqrstuvwxyz #") for _ in range(n)))
+        cand.append(bytes(rng.choice(b"ghijklmnopqrstuvwxyz #") for _ in range(n - 1)) + b"\r")
     # a line with 14/28 (or 26/40) hex digits may be a frame by C02: such a line is not junk
     return [j for j in cand if sum(1 for c in j if chr(c) in "0123456789abcdefABCDEF") not in (14, 26, 28, 40)]
 
@@ -24,7 +28,7 @@ class C13(PropBase):
     id = "C13"
     lean_modules = ["SqModel.Props.C13", "SqModel.Proofs.BridgeTable"]
     rule = ("valid streams of 20-80 frames of every format for 3 aircraft in mixed line styles (bare, *..;, @time stamp..;, lower case + CR); junk lines (empty, NUL, 0x80-0xFF, invalid UTF-8 "
-            "sequences, lone CR, > 64 KiB, truncated / over-long frames, records cut off in every line style (opening mark without the closing one, bare time stamp ..), non-hex) inserted at random positions; the table after "
+            "sequences, lone CR, > 64 KiB, lengths on and around 4 KiB .. 128 KiB buffer sizes (65535, 65536 always), truncated / over-long frames, records cut off in every line style (opening mark without the closing one, bare time stamp ..), non-hex) inserted at random positions; the table after "
             "the real reader thread ran over the junk-laden file against the table after the clean file (impl vs impl), and "
             "against the model; the same with a silent aircraft, a pause longer than delete_after and 11-30 junk / bad-parity lines among 1-25 accepted ones (junk must not advance the sweep); file source (thorough: also the TCP source through the loopback peer of C18). Non-trivial = at "
             "least one junk line of a kind that is not valid UTF-8 precedes a valid line; distinct by stream.")
